@@ -4,7 +4,7 @@ cd "$(dirname "$0")/.." || exit 2
 echo "== own mutants"; 
 for p in selftest/mutants/*.patch; do
   case "$(basename $p)" in
-    c12-*|revert-610*) prop=C12;; c18-*) prop=C18;; *) prop=C19;;
+    c12-*|revert-610*|revert-1d73cb9*) prop=C12;; c18-*) prop=C18;; *) prop=C19;;
   esac
   selftest/mutants.sh $prop $p
 done
